@@ -19,7 +19,8 @@ RULE = ("Real client and server application stacks on a fault-injecting virtual 
         "still ends in the ack with the exact payload. Non-trivial: >= 2 segments in at least one direction. Distinct by "
         "(configuration, fault plan)."
         " Also: single faults around the sequence-number wrap of a 263-segment transfer (windows 1/2/4, both directions); single faults with one configured retry."
-        " Other timer proportions (APDU timeout 10 s / 6 s with segment timeout 2 s / 1 s).")
+        " Other timer proportions (APDU timeout 10 s / 6 s with segment timeout 2 s / 1 s)."
+        " One reduced copy of a generated shard runs with the library's debug tracing switched on (label tracing-on).")
 ASSUMPTIONS = [
     "the APDU timeout is not shorter than the segment timeout (with the reverse, the requester restarts a segmented request while the answer is still being repaired, and the standard's own state machine aborts)",
     "segment boundaries follow the library's slicing rule (payload / max-APDU); whether the resulting frames respect the peer's limits is C12",
